@@ -101,25 +101,25 @@ func (c lineClass) wedgeSig() string {
 type unitIDs struct{ U, D, N string }
 
 type env08 struct {
-	d        *ctl.Daemon
-	res      *Result
-	seed     int64
-	kinds    []string // connection kinds to use
-	pool     []string
-	poolMu   sync.Mutex
-	shared   string // a completed unit that is never released
-	tmplDir  string // copy of a completed unit's directory
-	created  []string
-	crMu     sync.Mutex
-	wedged   map[string]int // wedge signature -> confirmations
-	wMu      sync.Mutex
-	probeTO  time.Duration
-	replyTO  time.Duration
-	suspect  time.Duration
+	d         *ctl.Daemon
+	res       *Result
+	seed      int64
+	kinds     []string // connection kinds to use
+	pool      []string
+	poolMu    sync.Mutex
+	shared    string // a completed unit that is never released
+	tmplDir   string // copy of a completed unit's directory
+	created   []string
+	crMu      sync.Mutex
+	wedged    map[string]int // wedge signature -> confirmations
+	wMu       sync.Mutex
+	probeTO   time.Duration
+	replyTO   time.Duration
+	suspect   time.Duration
 	allWedges bool // exercise every disk-only class even after the first confirmed wedge
-	byKind   map[string][]lineVec
-	distinct map[string]bool
-	dMu      sync.Mutex
+	byKind    map[string][]lineVec
+	distinct  map[string]bool
+	dMu       sync.Mutex
 }
 
 const alnum = "abcdefghijklmnopqrstuvwxyzABCDEFGHIJKLMNOPQRSTUVWXYZ0123456789"
@@ -658,12 +658,12 @@ type lineObs struct {
 	payload   string
 	stage     int
 	delimSent bool
-	Class     string   `json:"reply_class"`
-	Closed    bool     `json:"closed"`
-	TimedOut  bool     `json:"timed_out"`
-	Created   string   `json:"created,omitempty"`
-	ContOK    bool     `json:"cont_ok"`
-	SendError string   `json:"send_error,omitempty"`
+	Class     string `json:"reply_class"`
+	Closed    bool   `json:"closed"`
+	TimedOut  bool   `json:"timed_out"`
+	Created   string `json:"created,omitempty"`
+	ContOK    bool   `json:"cont_ok"`
+	SendError string `json:"send_error,omitempty"`
 }
 
 func trunc(s string, n int) string {
@@ -741,7 +741,8 @@ func (e *env08) sendDelimiter(k *ctl.Conn, o *lineObs) {
 		return
 	}
 	o.delimSent = true
-	if err := k.Send([]byte("connect x y " + o.nonce + "\n")); err != nil {
+	// JSON form: it does not depend on how the session treats a plain line after a JSON line, which is what phase "mixed" judges
+	if err := k.Send([]byte(`{"command":"connect","node":"x","service":"y","tls":"` + o.nonce + `"}` + "\n")); err != nil {
 		o.SendError = err.Error()
 	}
 }
@@ -1467,6 +1468,132 @@ func (e *env08) raceScan(which string, rng *rand.Rand) error {
 	return nil
 }
 
+// ---------------------------------------------------------------- mixed sessions: a JSON line, then another line
+
+type mixedVec struct {
+	A    lineVec `json:"a"`
+	B    lineVec `json:"b"`
+	Must string  `json:"must"`
+}
+
+var statusFields = []string{"Version", "NodeID", "Connections", "RoutingTable", "Advertisements", "KnownConnectionCosts", "SystemCPUCount", "SystemMemoryMiB"}
+
+// contentOK checks what the follower's answer must contain (the answer it gets on a fresh session).
+func (e *env08) contentOK(must, reply string, ids unitIDs) (bool, string) {
+	if must == "-" {
+		return true, ""
+	}
+	var m map[string]any
+	if json.Unmarshal([]byte(reply), &m) != nil {
+		return false, "not a JSON object"
+	}
+	switch must {
+	case "status_all_fields":
+		for _, f := range statusFields {
+			if _, ok := m[f]; !ok {
+				return false, "status field " + f + " missing"
+			}
+		}
+		if m["NodeID"] != e.d.ID {
+			return false, "wrong NodeID"
+		}
+	case "ping_from_self":
+		if m["Success"] != true || m["From"] != e.d.ID {
+			return false, fmt.Sprintf("ping of this node answered Success=%v From=%v", m["Success"], m["From"])
+		}
+	case "ping_no_route":
+		if m["Success"] != false {
+			return false, fmt.Sprintf("ping of an unknown node answered Success=%v From=%v", m["Success"], m["From"])
+		}
+	case "list_all":
+		if _, ok := m[ids.U]; !ok {
+			return false, "the list lacks unit " + ids.U
+		}
+		if len(m) < 2 {
+			return false, "the list has a single entry"
+		}
+	case "unit_status":
+		if m["WorkType"] != "echo" || m["StateName"] != "Succeeded" {
+			return false, fmt.Sprintf("not the status of the unit asked for: WorkType=%v StateName=%v", m["WorkType"], m["StateName"])
+		}
+	}
+
+	return true, ""
+}
+
+// runMixed sends a carrier line (a JSON object of any shape) and then a well-formed follower on the same session.
+// By the rule of per-line independence the follower is answered exactly as on a fresh session.
+func (e *env08) runMixed(idx int, mv mixedVec) error {
+	rng := rand.New(rand.NewSource(e.seed*50021 + int64(idx)*613))
+	ids := unitIDs{U: e.shared}
+	la := e.buildLine(mv.A.Class, ids, rng)
+	lb := e.buildLine(mv.B.Class, ids, rng)
+	k, err := e.dial(rng)
+	if err != nil {
+		return fmt.Errorf("cannot open session: %w", err)
+	}
+	defer k.Close()
+	finish := func(o *lineObs) bool {
+		if !o.TimedOut {
+			return true
+		}
+		if h, _ := e.checkHealth(); h != healthy {
+			return false
+		}
+		e.collect(k, o, e.replyTO)
+
+		return !o.TimedOut
+	}
+	oa := e.sendLine(k, mv.A, la, rng)
+	e.res.mu.Lock()
+	e.res.Evaluations++
+	e.res.mu.Unlock()
+	e.markDistinct("mixed|" + mv.A.Class.key() + "|" + mv.B.Class.key())
+	replay := map[string]any{"mode": "mixed", "vector": mv, "conn": k.Kind, "line_a": trunc(string(la), 300), "line_b": string(lb)}
+	if !finish(&oa) {
+		e.res.violate("C08:no-reply-to-"+mv.A.Class.key(), fmt.Sprintf("no answer to %q", trunc(string(la), 200)), replay)
+		if h, _ := e.checkHealth(); h != healthy {
+			return e.recover()
+		}
+
+		return nil
+	}
+	replay["observed_a"] = oa
+	if oa.Class != mv.A.Expect.Reply || !oa.ContOK {
+		e.judgeLine(mv.A, oa, replay) // the carrier itself misbehaves: the same verdict as in phase 1
+
+		return nil
+	}
+	ob := e.sendLine(k, mv.B, lb, rng)
+	okB := finish(&ob)
+	replay["observed_b"] = ob
+	what := ""
+	switch {
+	case !okB:
+		what = "was not answered"
+	case ob.Class != mv.B.Expect.Reply:
+		what = fmt.Sprintf("was answered %v (class %s), on a fresh session it is answered with class %s", ob.Replies, ob.Class, mv.B.Expect.Reply)
+	case !ob.ContOK:
+		what = "was answered but the session then stopped answering"
+	default:
+		if ok, why := e.contentOK(mv.Must, ob.full[0], ids); !ok {
+			what = fmt.Sprintf("was answered with different content than on a fresh session (%s): %s", why, trunc(ob.full[0], 200))
+		}
+	}
+	if what != "" {
+		e.res.violate("C08:line-answer-depends-on-earlier-line-"+mv.B.Class.key(),
+			fmt.Sprintf("after the line %q the well-formed line %q %s", trunc(string(la), 160), string(lb), what), replay)
+
+		return nil
+	}
+	e.res.count("mixed_ok")
+	if mv.B.Class.Fam == "plain" || mv.B.Class.Form == "plain" {
+		e.res.count("mixed_plain_after_json_ok")
+	}
+
+	return nil
+}
+
 const listRaceSig = "C08:work-list-error-while-another-session-releases-a-unit"
 
 // raceList: "work list" on some sessions while other sessions create and release units.  A well-formed work list must
@@ -1566,6 +1693,8 @@ func cmdC08(args []string) {
 	pairMode := fs.String("pairmode", "split", "alt | conc | both | split (alternate by index)")
 	maxPairs := fs.Int("maxpairs", 0, "0 = all")
 	replayFile := fs.String("replay", "", "replay file written by a previous run")
+	mixedFile := fs.String("mixed", "", "NDJSON mixed sessions (JSON line, then another line) from TLC")
+	maxMixed := fs.Int("maxmixed", 0, "replay at most this many mixed sessions (seeded sample; 0 = all)")
 	budget := fs.Duration("budget", 0, "soft wall-clock budget for the pair phase (0 = none)")
 	allWedges := fs.Bool("allwedges", false, "exercise every disk-only class even after a confirmed wedge")
 	_ = fs.Parse(args)
@@ -1665,6 +1794,43 @@ func cmdC08(args []string) {
 		}
 	}
 	res.add("line_classes", len(lines))
+	// phase 1b: a JSON line of any shape, then a well-formed line on the same session (per-line independence)
+	if *mixedFile != "" {
+		mixed, err := readNDJSON[mixedVec](*mixedFile)
+		if err != nil {
+			res.inconclusive("cannot read mixed sessions: %v", err)
+
+			return
+		}
+		sort.Slice(mixed, func(i, j int) bool {
+			return mixed[i].A.Class.key()+"|"+mixed[i].B.Class.key() < mixed[j].A.Class.key()+"|"+mixed[j].B.Class.key()
+		})
+		rand.New(rand.NewSource(*seed+17)).Shuffle(len(mixed), func(i, j int) { mixed[i], mixed[j] = mixed[j], mixed[i] })
+		if *maxMixed > 0 && len(mixed) > *maxMixed {
+			mixed = mixed[:*maxMixed]
+		}
+		for i, mv := range mixed {
+			if res.Counters["violations"] >= 40 {
+				break
+			}
+			if err := e.runMixed(i, mv); err != nil {
+				res.inconclusive("environment failure at mixed session %d: %v", i, err)
+
+				return
+			}
+			if i%50 == 49 {
+				if h, why := e.checkHealth(); h != healthy {
+					res.violate("C08:unhealthy-during-mixed-sessions", why, map[string]any{"mode": "mixed-health"})
+					if err := e.recover(); err != nil {
+						res.inconclusive("%v", err)
+
+						return
+					}
+				}
+			}
+		}
+		res.add("mixed_sessions", len(mixed))
+	}
 	// phase 2: slow clients
 	rng := rand.New(rand.NewSource(*seed))
 	e.idleHolders(8, rng)
@@ -1751,13 +1917,20 @@ func (e *env08) replay(path string) {
 			Class  lineClass `json:"class"`
 			Kind   string    `json:"kind"`
 			Expect lineExpect
-			Vector sessVec `json:"vector"`
+			Vector sessVec         `json:"-"`
+			Mixed  mixedVec        `json:"-"`
+			RawVec json.RawMessage `json:"vector"`
 		} `json:"replay"`
 	}
 	if err := json.Unmarshal(b, &rp); err != nil {
 		e.res.inconclusive("cannot parse replay: %v", err)
 
 		return
+	}
+	if rp.Replay.Mode == "mixed" {
+		_ = json.Unmarshal(rp.Replay.RawVec, &rp.Replay.Mixed)
+	} else if len(rp.Replay.RawVec) > 0 {
+		_ = json.Unmarshal(rp.Replay.RawVec, &rp.Replay.Vector)
 	}
 	switch {
 	case rp.Replay.Mode == "single":
@@ -1784,6 +1957,12 @@ func (e *env08) replay(path string) {
 	case rp.Replay.Mode == "race":
 		for i := 0; i < 3; i++ {
 			if err := e.raceScan(rp.Replay.Which, rand.New(rand.NewSource(e.seed+int64(i)))); err != nil {
+				e.res.inconclusive("replay: %v", err)
+			}
+		}
+	case rp.Replay.Mode == "mixed":
+		for i := 0; i < 5; i++ {
+			if err := e.runMixed(i, rp.Replay.Mixed); err != nil {
 				e.res.inconclusive("replay: %v", err)
 			}
 		}
